@@ -1,0 +1,19 @@
+//go:build verif
+
+// Contracts for package gozxing, read by the govc verification-condition generator in /verif.
+// This file contains comments only; it is compiled into nothing and exists only under the
+// build tag "verif".
+
+package gozxing
+
+// ---------------------------------------------------------------- BitArray: abstract view
+
+//@ spec func bit(b *BitArray, k int) bool = (b.bits[k/32] >> uint(k%32)) & 1 == 1
+//@ pred wfBA(b *BitArray) = b.size >= 0 && len(b.bits) <= 1<<26 && b.size <= len(b.bits)*32
+
+//@ func (b *BitArray) Get(i int) (r bool)
+//@   property C16 C20
+//@   mode bv
+//@   requires wfBA(b) && 0 <= i && i < b.size
+//@   ensures r == bit(b, i)
+//@   modifies nothing
